@@ -327,6 +327,45 @@ fn exec_typed<T: Elem + Peek + Clone + Default + 'static, N: ArrayLength>(case: 
                     let c = a.clone();
                     c.iter().map(|x| (x.get(), ident(x))).collect()
                 }
+                // clone_from into an existing array (2 stack, 3 boxed): the destination ends up as the element-wise clone
+                2 | 3 => {
+                    let dst = mk_b();
+                    CLONE_LOG.with(|l| l.borrow_mut().clear());
+                    let calls_before = registry::calls();
+                    let first = registry::created() as u32;
+                    let r: Vec<(u32, Option<u32>)> = if f == 2 {
+                        let mut dst = dst;
+                        dst.clone_from(&a);
+                        dst.iter().map(|x| (x.get(), ident(x))).collect()
+                    } else {
+                        let (mut dst, src) = (Box::new(dst), Box::new(mk_a()));
+                        CLONE_LOG.with(|l| l.borrow_mut().clear());
+                        let _ = calls_before;
+                        dst.clone_from(&src);
+                        dst.iter().map(|x| (x.get(), ident(x))).collect()
+                    };
+                    let got: Vec<u32> = r.iter().map(|x| x.0).collect();
+                    if got != av {
+                        return Err(format!("{what}: after clone_from the destination differs from the source: {:?} vs {:?}", &got[..got.len().min(6)], &av[..av.len().min(6)]));
+                    }
+                    if T::KIND == "gen_no_drop_glue" || T::KIND == "zst_no_drop_glue" {
+                        let l = CLONE_LOG.with(|l| l.borrow().clone());
+                        if l != av {
+                            return Err(format!("{what}: clone_from: T::clone call log {:?}, expected one call per element in index order {:?}", &l[..l.len().min(8)], &av[..av.len().min(8)]));
+                        }
+                    }
+                    if T::KIND == "tracked" && f == 2 {
+                        // the clones are new values (fresh identities), not the source's elements
+                        if r.iter().any(|x| x.1.map(|id| id < first).unwrap_or(false)) {
+                            return Err(format!("{what}: clone_from left elements in the destination that are not fresh clones"));
+                        }
+                    }
+                    drop(a);
+                    engine::end_case(false)?;
+                    acc.count(n >= 2, case);
+                    acc.class(&format!("kind_{}", T::KIND));
+                    return Ok(());
+                }
                 _ => {
                     let a = Box::new(a);
                     let c = a.clone();
@@ -454,6 +493,7 @@ fn grid(draws: u32, seed: u64) -> Vec<Case> {
             }
             for f in 0..2 {
                 ops.push(Op::Clone(f));
+                ops.push(Op::Clone(f + 2));
                 ops.push(Op::Default(f));
             }
             for op in ops {
@@ -495,7 +535,7 @@ pub fn main() {
         Report {
             prop: PROP,
             level: "exploration",
-            rule: "case = (operation and receiver/argument form, N in {0..8,12,16,17,33,64,256,1024} (u32 elements additionally 9,15,31,63,65,100,127,129,200,255,257,300,511,513,1000,1023,2048,4096), element kind, seeded element values): generate x4 forms (owned, via &, via &mut, boxed), map x4, zip x10 (nine stack forms + boxed x boxed), fold x4, Clone (stack, boxed), Default (stack, default_boxed); element kinds u32, String, drop-tracked, zero-sized tracked, a type without drop glue whose Clone/Default are observable, and a zero-sized type without drop glue whose Clone/Default are observable; map x4 and zip x10 whose output element type is () for every input kind. \
+            rule: "case = (operation and receiver/argument form, N in {0..8,12,16,17,33,64,256,1024} (u32 elements additionally 9,15,31,63,65,100,127,129,200,255,257,300,511,513,1000,1023,2048,4096), element kind, seeded element values): generate x4 forms (owned, via &, via &mut, boxed), map x4, zip x10 (nine stack forms + boxed x boxed), fold x4, Clone (stack, boxed), clone_from into an existing array (stack, boxed), Default (stack, default_boxed); element kinds u32, String, drop-tracked, zero-sized tracked, a type without drop glue whose Clone/Default are observable, and a zero-sized type without drop glue whose Clone/Default are observable; map x4 and zip x10 whose output element type is () for every input kind. \
                    Oracle: the stateful, non-commutative closure's call log must be exactly calls 0..N-1 with arguments (i) / (a[i]) / (a[i], b[i]) / (acc, a[i]) in ascending order, and the result must equal the same computation on slices; Clone/Default order is observed through identities and call logs. \
                    non-trivial = N >= 2; distinct = distinct (form, N, kind, values)",
             exhaustive: false,
